@@ -112,7 +112,8 @@ Inductive op :=
 | OGetWrapped (tgt : option Z) (w : Z)      (* Get with a key wrapping specification naming encryption key w *)
 | OLocate
 | ODiscover (vs : list Z)                   (* DiscoverVersions; vs = the versions the client lists, [] = no list *)
-| OQuery.
+| OQuery
+| OLocatePage (ft : option otype) (off : Z) (mx : option Z).   (* Locate with an Object Type filter, Offset Items, Maximum Items *)
 
 Record item := { i_op : op; i_gate : bool }.
 
@@ -156,6 +157,11 @@ Fixpoint check_bases (who : Z) (st : store) (bases : list Z) : bases_r :=
                | AOk _ => check_bases who st bs
                end
   end.
+
+Definition otype_code (t : otype) : Z :=
+  match t with TSym => 2 | TPub => 3 | TPriv => 4 | TSplit => 5 | TCert => 1 | TSecret => 7 | TOpaque => 8 end.
+Definition otype_matches (ft : option otype) (t : otype) : bool :=
+  match ft with None => true | Some f => otype_code f =? otype_code t end.
 
 Definition resolve (tgt ph : option Z) : option Z := match tgt with Some u => Some u | None => ph end.
 
@@ -211,6 +217,11 @@ Definition step_item (ver who : Z) (st : store) (ph : option Z) (it : item) : re
                        | _ => filter (fun v => existsb (Z.eqb v) vs) server_versions
                        end), st, ph)
   | OQuery => (RFound, st, ph)
+  | OLocatePage ft off mx =>
+      (* all objects have the same Initial Date in the histories of this check, so "newest first" keeps table order *)
+      let all := map uid (filter (fun o => permitted who PLocate o && otype_matches ft (oty o)) (objs st)) in
+      let rest := skipn (Z.to_nat off) all in
+      (RLocated (match mx with Some m => firstn (Z.to_nat m) rest | None => rest end), st, ph)
   end.
 
 (* did the batch item fail (decides Stop)? *)
